@@ -1807,6 +1807,9 @@ BENIGN = [
         """        const int status = pthread_key_create(&my_key, nullptr);
         if (status) {""")]),
     dict(name='c02-b-execute-slot-in-a-local', prop='C02', edits=[('src/tbb/arena.cpp', '                index2 = a->occupy_free_slot</*as_worker*/false>(*td);\n                if (index2 != arena::out_of_arena) {\n                    a->my_exit_monitors.cancel_wait(waiter);', '                const size_t slot = a->occupy_free_slot</*as_worker*/false>(*td);\n                index2 = slot;\n                if (slot != arena::out_of_arena) {\n                    a->my_exit_monitors.cancel_wait(waiter);')]),
+    dict(name='c09-b-try-push-discounts-invalid-entries', prop='C09', edits=[('include/oneapi/tbb/concurrent_queue.h',
+        "            if (static_cast<std::ptrdiff_t>(ticket - my_queue_representation->head_counter.load(std::memory_order_relaxed)) >= my_capacity) {",
+        "            if (static_cast<std::ptrdiff_t>(ticket - my_queue_representation->head_counter.load(std::memory_order_relaxed)) - static_cast<std::ptrdiff_t>(my_queue_representation->n_invalid_entries.load(std::memory_order_relaxed)) >= my_capacity) {")]),
     dict(name='c01-b-group-wait-epilogue-in-a-named-lambda', prop='C01', edits=[('include/oneapi/tbb/task_group.h',
         """        try_call([&] {
             d1::wait(m_wait_vertex.get_context(), context());
